@@ -227,6 +227,30 @@ func genC12(env *core.Env, emit func(core.Case)) {
 		add("owned", sig, b)
 	}
 	ownedLabels = nil
+	// negative answers as authoritative servers and validating resolvers write them: no answer record, and
+	// an authority section in which the SOA comes after NS records, or after records of a type the package
+	// has no decoder for (the RFCs leave the order open)
+	for _, qn := range [][][]byte{{[]byte("example"), []byte("com")}, {[]byte("_8443"), []byte("_https"), []byte("example"), []byte("com")}} {
+		zone := [][]byte{[]byte("example"), []byte("com")}
+		for _, shape := range [][]int{{6}, {2, 6}, {2, 2, 6}, {46, 6}, {47, 6, 46}, {6, 2}, {2}} {
+			for _, qtype := range []int{1, 28, 65} {
+				d := &gen.DNSBuilder{}
+				d.Header(uint16(r.IntN(65536)), 0x8180, 1, 0, len(shape), 0)
+				d.Question(r, gen.NamePlain, qn, qtype, 1)
+				sig := "auth"
+				for _, t := range shape {
+					sig += fmt.Sprintf("-%d", t)
+					switch t {
+					case 2, 6:
+						d.RR(r, gen.NamePlain, zone, t, 1, uint32(r.IntN(3600)), rdataGen(r, d, t, false), 0)
+					default:
+						d.RR(r, gen.NamePlain, zone, t, 1, uint32(r.IntN(3600)), func() { d.B = append(d.B, gen.RandBytes(r, 20+r.IntN(40))...) }, 0)
+					}
+				}
+				add("negative", fmt.Sprintf("%s/q%d", sig, qtype), d.B)
+			}
+		}
+	}
 	// answer sections in which the CNAME records of the asked name form a cycle (x CNAME x; a -> b -> a;
 	// a longer ring), alone or next to address records: a forwarder that does not look, or a hostile server
 	for _, qn := range [][][]byte{{[]byte("example"), []byte("com")}, {[]byte("_8443"), []byte("_https"), []byte("example"), []byte("com")}} {
